@@ -33,6 +33,18 @@ def run_c14(tier):
             raise vlib.Undecided('ChaChaPRG %s: %s %s' % (pattern, res.violated, res.error))
         ck.add_states(res, 'pattern=%s ops=%d generators<=%d maxpos=%d' % (pattern, ops, gens, maxpos))
         cases += tlc_cases(res.out)
+    # long behaviours (one generator reused across many operations, forks far into the run): tlc -simulate on the same specification
+    nlong, depth = (80, 40) if tier == 'quick' else (1500, 80)
+    res = vlib.tlc(SPEC, 'ChaChaPRG', vlib.cfg({'Sizes': SIZES, 'MaxOps': depth, 'MaxGens': 4, 'Pattern': 'free', 'MaxPos': 0, 'TruncBug': False},
+                   invariants=['SameStream', 'Emit']), name='prgsim', timeout=1200, workers=1,
+                   extra=['-simulate', 'num=%d' % nlong, '-depth', str(depth + 2), '-seed', str(seed)])
+    if res.violated:
+        raise vlib.Undecided('ChaChaPRG simulation violates %s' % res.violated)
+    longc = tlc_cases(res.out)
+    if len(longc) < nlong // 2:
+        raise vlib.Undecided('ChaChaPRG simulation produced %d behaviours' % len(longc))
+    ck.cov['long_behaviours'] = {'count': len(longc), 'operations_each': depth}
+    cases += longc
     neg = vlib.tlc(SPEC, 'ChaChaPRG', vlib.cfg({'Sizes': {1}, 'MaxOps': 2, 'MaxGens': 2, 'Pattern': 'far', 'MaxPos': 0, 'TruncBug': True},
                    invariants=['SameStream']), name='prgneg')
     if 'SameStream' not in neg.violated:
